@@ -47,8 +47,41 @@ type jaObs struct {
 // childObs: Content(child schema) on the Body of one returned block
 type childObs struct {
 	Expanded bool // the Go body is a dynblock expandBody
+	Depth    int  // number of expandBody layers around it (filled in from the case's shape: layerDepth)
 	O        obs
 	body     hcl.Body
+	file     string // file the block is defined in
+}
+
+// layerDepth: how many dynblock.Expand layers of the case's root body cover the
+// file (every layer wraps the Body of every block it passes on once more).
+func layerDepth(cs *CaseSpec, filename string) int {
+	var fi int
+	if _, err := fmt.Sscanf(filename, "f%d.", &fi); err != nil {
+		return -1
+	}
+	d := 0
+	if cs.ExpandTop {
+		d++
+	}
+	for _, ch := range cs.Children {
+		if !ch.Nested && ch.Expand && len(ch.Files) > 0 && ch.Files[0] == fi {
+			d++
+		}
+	}
+	return d
+}
+
+// settleDepth reconciles the structural depth with what the Go value shows.
+func settleDepth(d int, expanded bool, rep *hv.Report) int {
+	if d < 0 || (d > 0) != expanded {
+		rep.Hist("child:layer-depth-not-derivable")
+		if expanded {
+			return 1
+		}
+		return 0
+	}
+	return d
 }
 
 var quoted = regexp.MustCompile(`"([^"]*)"`)
@@ -166,7 +199,7 @@ func coqJA(o jaObs) string {
 func coqChildren(cs []childObs) string {
 	out := make([]string, len(cs))
 	for i, c := range cs {
-		out[i] = fmt.Sprintf("(%s, %s)", hv.CoqBool(c.Expanded), coqObs(c.O))
+		out[i] = fmt.Sprintf("(%d, %s)", c.Depth, coqObs(c.O))
 	}
 	return hv.CoqList(out)
 }
@@ -179,6 +212,7 @@ func observeChildren(c *hcl.BodyContent, child Schema) []childObs {
 			Expanded: strings.Contains(fmt.Sprintf("%T", b.Body), "expandBody"),
 			O:        observe(cc, ds),
 			body:     b.Body,
+			file:     b.DefRange.Filename,
 		})
 	}
 	return out
@@ -1054,6 +1088,15 @@ func runC04(cfg *hv.RunCfg) error {
 		if p != nil {
 			f.fail("panic", "history", fmt.Sprint(p), input)
 			continue
+		}
+		for i := range main.Kids {
+			for j := range main.Kids[i] {
+				kd := &main.Kids[i][j]
+				kd.Depth = settleDepth(layerDepth(cs, kd.file), kd.Expanded, rep)
+				if kd.Depth >= 2 {
+					rep.Hist("child:under-two-expand-layers")
+				}
+			}
 		}
 		// tree-shaped history on the SAME root object (bodies are values)
 		treeOps := runTree(cs, rootBody, f, input, rep)
